@@ -24,6 +24,8 @@ pub struct Scope {
     pub barrier2: bool,
     pub cells: bool,
     pub leaf: bool,
+    /// weak pointers to leaf objects
+    pub weakleaf: bool,
     pub fin: bool,
     pub faults: bool,
     pub pcallbacks: bool,
@@ -66,6 +68,7 @@ pub const BASE: Scope = Scope {
     barrier2: false,
     cells: false,
     leaf: false,
+    weakleaf: false,
     fin: false,
     faults: false,
     pcallbacks: false,
@@ -88,6 +91,7 @@ pub fn scope(name: &str) -> Option<Scope> {
         "S3c" => Scope { name: "S3c", n: 3, r: 1, k: 1, weak: false, upgrade_ops: false, ..BASE },
         "S4c" => Scope { name: "S4c", n: 4, r: 1, k: 1, weak: false, upgrade_ops: false, ..BASE },
         "S3w" => Scope { name: "S3w", n: 3, r: 1, k: 1, ..BASE },
+        "S3wl" => Scope { name: "S3wl", n: 3, r: 1, k: 1, copyroot: false, upgrade_ops: false, wrap: false, ..BASE },
         "S2w" => Scope { name: "S2w", n: 2, r: 1, k: 1, ..BASE },
         // barrier paths
         "S2b" => Scope { name: "S2b", n: 2, r: 1, k: 1, barrier: true, cells: false, ..BASE },
@@ -108,7 +112,10 @@ pub fn scope(name: &str) -> Option<Scope> {
         // metrics
         "S2m" => Scope { name: "S2m", n: 2, r: 1, k: 1, leaf: true, faults: true, metrics_canon: true, ..BASE },
         "S3m" => Scope { name: "S3m", n: 3, r: 1, k: 1, weak: false, upgrade_ops: false, leaf: true, metrics_canon: true, ..BASE },
+        "S2fl" => Scope { name: "S2fl", n: 2, r: 1, k: 1, weak: false, upgrade_ops: false, copyroot: false, wrap: false, leaf: true, weakleaf: true, fin: true, ..BASE },
+        "S3fl" => Scope { name: "S3fl", n: 3, r: 1, k: 1, weak: false, upgrade_ops: false, copyroot: false, wrap: false, leaf: true, weakleaf: true, fin: true, ..BASE },
         "S2mb" => Scope { name: "S2mb", n: 2, r: 1, k: 1, leaf: true, barrier: true, metrics_canon: true, ..BASE },
+        "S3mb" => Scope { name: "S3mb", n: 3, r: 1, k: 1, weak: false, upgrade_ops: false, copyroot: false, wrap: false, leaf: true, barrier: true, metrics_canon: true, ..BASE },
         "S2n" => Scope { name: "S2n", n: 2, r: 1, k: 1, leaf: true, natural: true, metrics_canon: true, max_depth: 9, ..BASE },
         // protocol: all debt classes
         "S2q" => Scope { name: "S2q", n: 2, r: 1, k: 1, classes: 0b111, fin: true, ..BASE },
